@@ -1,7 +1,11 @@
 #!/bin/bash
-# mkwt.sh <name>: scratch worktree of /repo HEAD under /tmp without the verifier's contract files
+# mkwt.sh <name>: scratch worktree of /repo HEAD under /tmp whose history tip has no verifier contract files
 set -e
 d=/tmp/wt_$1
 git -C /repo worktree add --detach $d HEAD >/dev/null 2>&1
-find $d -name zz_contracts_verif.go -delete
+cd $d
+git rm -q $(git ls-files | grep zz_contracts_verif.go) >/dev/null
+git -c user.name=builder -c user.email=b@example.invalid commit -qm "scratch base" >/dev/null
+# squash history so earlier commits (with contract files) are not reachable from HEAD
+t=$(git commit-tree HEAD^{tree} -m "scratch base"); git reset -q --hard $t
 echo $d
